@@ -93,11 +93,12 @@ def execute(desc, pre=None, post=None, progress=None, record_args=True, track_re
     R.result, R.exc = None, None
     R.fail = fail
     R.kw = kw
+    drv = _hang_watch(H, desc, on_hang) if hang_watch else None
+    R.hang_drv = drv
     if before_run is not None:
         before_run(R)
     before = rec.thread_census()
     P = pert.make(seed, desc.get("perturb", "none"))
-    drv = _hang_watch(H, desc, on_hang) if hang_watch else None
     try:
         with P:
             try:
